@@ -38,7 +38,7 @@ def requirements(tier):
 def rand_scalar(rnd, E):
     u1, u2 = rnd.choice(UNITS)
     unit = rnd.choice([u1, u2])
-    m = rnd.choice([0.0, 1.0, 2.5, 137.0, 1e-3, 3137.5, -4.2])
+    m = rnd.choice([0.0, 1.0, 2.5, 137.0, 1e-3, 3137.5, -4.2, 2e-7, 3.0000001])
     return E.ExplainableQuantity(m * E.u(unit), f"scalar {m} {unit}"), f"Q({m} {unit})"
 
 
@@ -47,7 +47,7 @@ def rand_hourly(rnd, E, classes, base_start=None, tz=None):
     unit = rnd.choice([u1, u2])
     n = rnd.choice([1, 2, 3, 7, 24, 50])
     start = (base_start or datetime(2025, 1, 1)) + timedelta(hours=rnd.choice([0, 0, 1, 3, 30, 100]))
-    vals = [rnd.choice([0.0, 1.0, 2.5, 137.0, 1e-3, 41.5]) for _ in range(n)]
+    vals = [rnd.choice([0.0, 1.0, 2.5, 137.0, 1e-3, 41.5, 2e-7, 1e-9, 3.0000001, 6.9999999]) for _ in range(n)]
     df = E.create_hourly_usage_df_from_list(vals, start, E.u(unit).units)
     if rnd.random() < 0.25 and n >= 3:
         df = df.drop(df.index[rnd.randrange(1, n - 1)]); classes.add("gapped_index")
